@@ -101,9 +101,25 @@ def docOk (d : Y) : Bool :=
        | _ => true)
   | _ => true
 
+mutual
+/-- every string (a possible rule reference or identifier) has a modelled `UUID()` verdict -/
+def stringsDecided : Y → Bool
+  | .str s => uuidDecided (.str s)
+  | .list l => stringsDecidedL l
+  | .map m => stringsDecidedM m
+  | _ => true
+def stringsDecidedL : List Y → Bool
+  | [] => true
+  | x :: xs => stringsDecided x && stringsDecidedL xs
+def stringsDecidedM : List (Y × Y) → Bool
+  | [] => true
+  | (k, v) :: rest => stringsDecided k && stringsDecided v && stringsDecidedM rest
+end
+
 def inDomain (k : Kind) (d : Y) : Bool :=
   match k with
   | .collection => valueOk d && (collDocs d).all docOk
+  | .collectionRef => valueOk d && (collDocs d).all docOk && stringsDecided d
   | _ => docOk d
 
 end SigmaVerif.Load
